@@ -357,7 +357,8 @@ def huge_rear_episodes(seed):
     only: the strings are 2 MB long, so each one is mentioned as rarely as possible)"""
     r = random.Random(seed + 77)
     eps = []
-    for rear in [2113663, 2113664, 2113665]:
+    # (+ offsets above the boundary whose three low code bytes all differ)
+    for rear in [2113663, 2113664, 2113665, 2113664 + 0x0102, 2113664 + 0x030201]:
         eps.append(long_rear_episode(r, rear, 3, budget=120000))
     return eps
 
